@@ -870,6 +870,9 @@ struct ClientPlan {
     sim: SimConfig,
     tcp: bool,
     msgs: Vec<(UpdateMsg, ReplyTamper)>,
+    /// extra copies of the k-th delivered reply sent right after it (duplicate datagrams / frames)
+    #[serde(default)]
+    dup: Vec<u8>,
 }
 
 pub struct C13Client;
@@ -906,12 +909,14 @@ impl Part for C13Client {
                 (simple_update(&mut r), t)
             })
             .collect();
-        serde_json::to_value(ClientPlan { sim, tcp: r.bool(), msgs }).unwrap()
+        let tcp = r.bool();
+        let dup = (0..n).map(|_| *r.pick(&[0u8, 0, 1, 2])).collect();
+        serde_json::to_value(ClientPlan { sim, tcp, msgs, dup }).unwrap()
     }
     fn run(&self, plan: &Value, trace: bool) -> Report {
         let mut p: ClientPlan = serde_json::from_value(plan.clone()).expect("plan");
         p.sim.trace = trace;
-        let mut sig = mix(p.tcp as u64);
+        let mut sig = mix(p.tcp as u64 ^ p.dup.iter().fold(0u64, |a, d| a * 3 + *d as u64) << 8);
         for (_, t) in &p.msgs {
             sig = mix(sig
                 ^ match t {
@@ -1017,16 +1022,19 @@ async fn client_scenario(p: ClientPlan) {
     // (request bytes, delivered reply bytes) per exchange, in arrival order
     let exchanges: Rc<std::cell::RefCell<Vec<(Vec<u8>, Vec<u8>)>>> = Rc::new(std::cell::RefCell::new(Vec::new()));
     let tampers: Vec<ReplyTamper> = p.msgs.iter().map(|(_, t)| *t).collect();
+    let dups: Vec<u8> = p.dup.clone();
 
     // UDP side of the server
     {
         let server = server.clone();
         let exchanges = exchanges.clone();
         let tampers = tampers.clone();
+        let dups = dups.clone();
         net::udp_node(SERVER_ADDR, move |dg| {
             let server = server.clone();
             let exchanges = exchanges.clone();
             let tampers = tampers.clone();
+            let dups = dups.clone();
             let (src, bytes) = (dg.src, dg.bytes.clone());
             exec::spawn("srv-udp", async move {
                 if let Ok(Some(reply)) = server.handle::<SimTime>(bytes.clone(), Protocol::Udp).await {
@@ -1037,6 +1045,10 @@ async fn client_scenario(p: ClientPlan) {
                         exec::count(&format!("fault.reply.{}", format!("{t:?}").split('(').next().unwrap()));
                     }
                     exchanges.borrow_mut().push((bytes, delivered.clone()));
+                    for _ in 0..dups.get(k).copied().unwrap_or(0) {
+                        exec::count("fault.reply.duplicate");
+                        net::udp_send(SERVER_ADDR, src, delivered.clone());
+                    }
                     net::udp_send(SERVER_ADDR, src, delivered);
                 }
             });
@@ -1048,10 +1060,12 @@ async fn client_scenario(p: ClientPlan) {
         let server = server.clone();
         let exchanges = exchanges.clone();
         let tampers = tampers.clone();
+        let dups = dups.clone();
         net::tcp_listen(SERVER_ADDR, move |mut tcp, _peer| {
             let server = server.clone();
             let exchanges = exchanges.clone();
             let tampers = tampers.clone();
+            let dups = dups.clone();
             exec::spawn("srv-tcp", async move {
                 let mut hdr = [0u8; 2];
                 loop {
@@ -1072,6 +1086,11 @@ async fn client_scenario(p: ClientPlan) {
                         exchanges.borrow_mut().push((body, delivered.clone()));
                         let mut frame = (delivered.len() as u16).to_be_bytes().to_vec();
                         frame.extend_from_slice(&delivered);
+                        let one = frame.clone();
+                        for _ in 0..dups.get(k).copied().unwrap_or(0) {
+                            exec::count("fault.reply.duplicate");
+                            frame.extend_from_slice(&one);
+                        }
                         if tcp.write_all(&frame).await.is_err() {
                             break;
                         }
